@@ -76,9 +76,9 @@ def run(sc: Dict[str, Any]) -> Dict[str, Any]:
     props = {"C01": False, "C04": False, "C08": False, "C09": False}
     props.update(sc.get("props", {}))
     tr: Dict[str, Any] = {"arch": arch, "fold": bool(sc.get("fold", False)), "props": props,
-                          "conv_ok": False, "conv_err": "", "fwd_ok": True, "fwd_err": "", "L": [], "cost": [],
+                          "conv_ok": False, "conv_err": "", "conv_rejected_fusion": False, "fwd_ok": True, "fwd_err": "", "L": [], "B": [], "cost": [],
                           "E": {"export_ok": False, "run_ok": False, "shape_ok": False, "out_equal": False,
-                                "err": "", "diff": -1, "L": []}}
+                                "err": "", "diff": -1, "L": [], "B": []}}
     rng = random.Random(sc.get("seed", 0))
     costs = sc.get("costs", [])
     specs = _cost_specs()
@@ -94,6 +94,7 @@ def run(sc: Dict[str, Any]) -> Dict[str, Any]:
         tr["conv_ok"] = True
     except Exception as e:
         tr["conv_err"] = f"{type(e).__name__}: {str(e)[:100]}"
+        tr["conv_rejected_fusion"] = isinstance(e, ValueError) and "pair to be fused has multiple users" in str(e)
         return tr
     pit.eval()
     sh = shapes(arch)
@@ -271,8 +272,14 @@ def run(sc: Dict[str, Any]) -> Dict[str, Any]:
             rec["nz_missing"] = True
         tr["L"].append(rec)
 
+    try:
+        tr["B"] = pitdrv.observe_bns(pit, arch)
+    except Exception:
+        tr["B"] = []
+
     # ---- export (index-encoded copy for the index maps, the real one for the numeric comparison)
     E = tr["E"]
+    E["B"] = []
     cmp = pitdrv.export_and_compare(pit, arch, x)
     E.update({k: cmp[k] for k in ("export_ok", "run_ok", "shape_ok", "out_equal")})
     E["err"] = cmp.get("err", "")
@@ -285,6 +292,7 @@ def run(sc: Dict[str, Any]) -> Dict[str, Any]:
                 warnings.simplefilter("ignore")
                 exp_enc = enc.eval().export()
             dec = pitdrv.decode_export(exp_enc, arch)
+            E["B"] = pitdrv.decode_bns(exp_enc, enc, arch)
             # output positions / number of calls of each exported searchable layer (hooks on a real run)
             m2 = copy.deepcopy(pit).eval()
             with warnings.catch_warnings():
